@@ -1,8 +1,79 @@
 //! Verification hook (compiled only with `--cfg quinn_rs_quinn_verif`).
+//!
+//! Component `inflight`: `PathData::{sent, remove_in_flight}` + `InFlight` (connection/paths.rs)
+//! together with `PacketSpace::{sent, take}` (connection/spaces.rs), i.e. the bytes-in-flight
+//! ledger exactly as `Connection` drives it for one path and one packet number space.
+//!
+//! Ops (the path has generation 7):
+//!   [0, pn, size, ack_eliciting, generation]  path.sent(pn, packet, &mut space)
+//!   [1, pn] acked / [2, pn] lost / [3, pn] abandoned:
+//!            space.take(pn) then path.remove_in_flight(&packet)   (the three callers do the same)
+//!   [4]      discard the space: mem::take(sent_packets).into_values() -> remove_in_flight each
+//! Observation after every op:
+//!   [r, in_flight.bytes, in_flight.ack_eliciting, space.has_in_flight, unacked_non_ack_eliciting_tail]
+//!   r = 0 for sent; for 1..3: 0 = not tracked, 1 = removed and debited, 2 = removed, other
+//!   generation (not debited); for 4: number of packets discarded.
+//! Underflow of a counter (debug build) panics: reported by the harness as PANIC.
 #![allow(missing_docs, dead_code, unused_imports, unreachable_pub, clippy::all)]
 use super::{Ops, Outs};
+use crate::connection::paths::PathData;
+use crate::connection::spaces::PacketSpace;
+use crate::{Instant, TransportConfig};
 
-/// Interpret `ops` for component `comp`; `None` if `comp` is not served by this module.
-pub(crate) fn run(_comp: &str, _ops: &Ops) -> Option<Outs> {
-    None
+pub(crate) const GENERATION: u64 = 7;
+
+fn inflight(ops: &Ops) -> Outs {
+    let now = Instant::now();
+    let cfg = TransportConfig::default();
+    let remote = "127.0.0.1:4433".parse().unwrap();
+    let mut path = PathData::new(remote, false, None, GENERATION, now, &cfg);
+    let mut space = PacketSpace::new(now);
+    let mut outs = Vec::new();
+    for op in ops {
+        let r: i128 = match op[0] {
+            0 => {
+                let p = super::sent_packets::packet(now, op[4] as u64, op[2] as u16, op[3] != 0);
+                path.sent(op[1] as u64, p, &mut space);
+                0
+            }
+            1 | 2 | 3 => match space.take(op[1] as u64) {
+                Some(p) => {
+                    if path.remove_in_flight(&p) {
+                        1
+                    } else {
+                        2
+                    }
+                }
+                None => 0,
+            },
+            4 => {
+                let taken = std::mem::take(&mut space.sent_packets);
+                let mut n = 0;
+                for p in taken.into_values() {
+                    path.remove_in_flight(&p);
+                    n += 1;
+                }
+                n
+            }
+            _ => {
+                outs.push(vec![-1]);
+                continue;
+            }
+        };
+        outs.push(vec![
+            r,
+            path.in_flight.bytes as i128,
+            path.in_flight.ack_eliciting as i128,
+            space.has_in_flight() as i128,
+            space.unacked_non_ack_eliciting_tail as i128,
+        ]);
+    }
+    outs
+}
+
+pub(crate) fn run(comp: &str, ops: &Ops) -> Option<Outs> {
+    match comp {
+        "inflight" => Some(inflight(ops)),
+        _ => None,
+    }
 }
